@@ -413,9 +413,14 @@ type result struct {
 	detail  string
 }
 
+var probe = []byte{1, 0, 0, 0, 0x1d}
+
 func firstByteClass(p []byte) string {
 	if len(p) == 0 {
 		return "empty_packet"
+	}
+	if p[0] == 0xff && strings.Contains(string(p), "command 29 not supported") {
+		return "probe_answer"
 	}
 	switch p[0] {
 	case 0x00:
@@ -468,11 +473,25 @@ func runCase(addr string, c Case) result {
 		}
 	}
 	wire := apply(s, cl.Salt, c.Muts)
-	// a COM_PING behind the mutated command guarantees an answer even when the mutated
-	// packet is (or has become) a command without response (STMT_CLOSE, SEND_LONG_DATA)
+	// a probe command behind the mutated one guarantees an answer even when the mutated
+	// packet is (or has become) a command without response (STMT_CLOSE, SEND_LONG_DATA).
+	// The probe is the unsupported command 0x1d, whose ERR text ("command 29 not supported")
+	// cannot be confused with the answer to the mutated command.
 	all := wire
 	if s.phase == "command" {
-		all = cat(wire, []byte{1, 0, 0, 0, 0x0e})
+		all = cat(wire, probe)
+	}
+	// what the server sees first: the command byte of the first complete packet
+	needsAnswer := false
+	if s.phase == "command" && len(all) >= 5 {
+		n := int(all[0]) | int(all[1])<<8 | int(all[2])<<16
+		if n >= 1 && len(all) >= 4+n && all[3] == 0 {
+			switch all[4] {
+			case 0x01, 0x18, 0x19, 0x1d: // QUIT, SEND_LONG_DATA, STMT_CLOSE: no response by protocol; 0x1d: the probe itself
+			default:
+				needsAnswer = true
+			}
+		}
 	}
 	res.sent = wire
 	if err := cl.WriteRaw(all); err != nil {
@@ -497,7 +516,11 @@ func runCase(addr string, c Case) result {
 	for {
 		n, err := cl.C.Read(buf)
 		if n > 0 && got == 0 && n >= 5 {
-			first = firstByteClass(buf[4:n])
+			end := 4 + (int(buf[0]) | int(buf[1])<<8 | int(buf[2])<<16)
+			if end > n {
+				end = n
+			}
+			first = firstByteClass(buf[4:end])
 		}
 		got += n
 		if err != nil {
@@ -522,7 +545,7 @@ func runCase(addr string, c Case) result {
 				// response (e.g. a longer header length in front of STMT_CLOSE): the server is
 				// then idle, not hung. A fresh PING must be answered.
 				pinged = true
-				cl.WriteRaw([]byte{1, 0, 0, 0, 0x0e})
+				cl.WriteRaw(probe)
 				cl.C.SetReadDeadline(time.Now().Add(horizon))
 				prefix = "silent_then_ping>"
 				continue
@@ -546,6 +569,9 @@ func runCase(addr string, c Case) result {
 				continue
 			}
 			res.outcome = prefix + first
+			if first == "probe_answer" && needsAnswer && prefix == "" {
+				res.bad, res.detail = "no_error_no_close", "the first packet the client received is the answer to the probe command: the mutated command got neither a response nor a close"
+			}
 			return res
 		}
 	}
@@ -638,7 +664,12 @@ func main() {
 		}
 		h, err := healthy(w.child.Addr)
 		if err != nil {
-			ev.Fatalf("healthy session: %v", err)
+			// the server was left unusable by earlier cases: continue on a fresh child
+			w.child.Close()
+			w.start()
+			if h, err = healthy(w.child.Addr); err != nil {
+				ev.Fatalf("healthy session on a fresh child: %v", err)
+			}
 		}
 		defer h.Close()
 		res := runCase(w.child.Addr, c)
@@ -649,6 +680,9 @@ func main() {
 		if res.bad == "hang" {
 			return "hang", res, ""
 		}
+		if res.bad == "no_error_no_close" {
+			return "no_error_no_close", res, ""
+		}
 		if res.bad != "" {
 			return "engine", res, res.detail
 		}
@@ -657,6 +691,19 @@ func main() {
 				return "crash", res, w.child.ExitState() + "\n" + w.child.Stderr()
 			}
 			return "other_session_affected", res, err.Error()
+		}
+		// ... and a session opened afterwards works too
+		h2, err := healthy(w.child.Addr)
+		if err != nil {
+			if !w.child.Alive() {
+				return "crash", res, w.child.ExitState() + "\n" + w.child.Stderr()
+			}
+			return "other_session_affected", res, "new session after the case: " + err.Error()
+		}
+		err = selectOne(h2)
+		h2.Close()
+		if err != nil {
+			return "other_session_affected", res, "new session after the case: " + err.Error()
 		}
 		return "", res, ""
 	}
@@ -779,6 +826,7 @@ func main() {
 		if os.Getenv("C38_DEBUG") != "" {
 			fmt.Fprintf(os.Stderr, "batch %d..%d: %d suspects, child alive=%v\n", from, to, len(sus), w.child.Alive())
 		}
+		found := 0
 		for _, c := range sus {
 			k, res, extra := runOne(c)
 			if k == "engine" {
@@ -795,10 +843,41 @@ func main() {
 					ev.Fatalf("case %s: verdict %s not reproducible", c, k)
 				}
 				report(c, k, res2, extra2)
+				found++
 				outcomes[c.Seed+"|"+k]++
 				_ = res
 			} else {
 				outcomes[c.Seed+"|"+res.outcome]++
+			}
+		}
+		if len(sus) > 0 && found == 0 {
+			// something went wrong in the parallel batch that no single suspect reproduces
+			// on its own: an earlier case of the batch may have damaged the server for the
+			// others. Re-run the whole batch sequentially with all checks after every case.
+			r.Add("batches_rerun_sequentially", 1)
+			w.child.Close()
+			w.start()
+			for _, c := range cases[from:to] {
+				k, _, extra := runOne(c)
+				if k == "engine" {
+					ev.Fatalf("case %s: %s", c, extra)
+				}
+				if k == "" {
+					continue
+				}
+				w.child.Close()
+				w.start()
+				ok, res2, extra2 := confirm(c, k)
+				if !ok {
+					if k == "hang" {
+						r.Add("unconfirmed_hang_candidates", 1)
+						continue
+					}
+					ev.Fatalf("case %s: verdict %s not reproducible", c, k)
+				}
+				report(c, k, res2, extra2)
+				w.child.Close()
+				w.start()
 			}
 		}
 	}
@@ -812,7 +891,7 @@ func main() {
 		}
 	}
 	if os.Getenv("C38_DEBUG") != "" {
-		fmt.Fprintf(os.Stderr, "child gen=%d stderr:\n%s\n", w.gen, tail(w.child.Stderr(), 3000))
+		fmt.Fprintf(os.Stderr, "child gen=%d stderr:\n%s\n", w.gen, tail(w.child.Stderr(), 1200))
 	}
 	w.child.Close()
 	r.Set("evaluations", done)
